@@ -133,6 +133,12 @@ func c01Programs(th bool) []map[string]interface{} {
 	out = append(out, graphCase([]gnode{{"Mul", "x,g", "o", ""}}, []string{"x:2,2", "g:"}, []string{"w:2,2"}, []string{"o"}, []string{"x", "g"}))
 	out = append(out, graphCase([]gnode{{"Mul", "x,g", "o", ""}}, []string{"x:2,2", "g:"}, []string{"g:"}, []string{"o"}, []string{"x", "g"}))
 	out = append(out, graphCase([]gnode{{"Mul", "x,g", "o", ""}}, []string{"x:2,2", "g:"}, []string{"g:"}, []string{"o", "g"}, []string{"x"}))
+	// the default operator set under both of its legal names, alone and next to the ML domain
+	for _, ops := range [][]string{{"ai.onnx=13"}, {"ai.onnx.ml=2", "ai.onnx=13"}, {"=13", "ai.onnx.ml=3"}, {"=13", "com.example=1"}} {
+		cm := graphCase([]gnode{{"Add", "x,w", "a", ""}, {"Relu", "a", "o", ""}}, inputs, inits, []string{"o"}, sup)
+		cm["opsets"] = ops
+		out = append(out, cm)
+	}
 	// Constant nodes (no inputs) and two Constants with different attributes
 	out = append(out, graphCase([]gnode{{"Constant", "", "c1", "value_float=2"}, {"Constant", "", "c2", "value_float=3"}, {"Mul", "x,c1", "a", ""}, {"Add", "a,c2", "o", ""}}, inputs, inits, []string{"o", "c1", "c2"}, sup))
 	return out
